@@ -4,12 +4,17 @@
    and authenticate lowers and restores that level exactly as client.go does. For the password pw a dump reveals it when pw
    is a contiguous sublist of the bytes; a rendered tree reveals it when pw occurs in a string or byte-array leaf that is
    shown, i.e. not under a secret tag (theories/C11Proofs.v).
-   C11_no_secret holds for every environment, every log level below 99 and every sequence of calls whose own requests are
-   innocent - under premises that are visible in the statement and cannot be theorems:
-     cipher_hides        the ciphertext does not contain the password           (an assumption about encryption)
-     peer_no_echo(_tree)  what the peer sends back does not contain it           (an assumption about the peer)
-   The third premise, auth_tree_masked, is proved (C11_auth_tree_masked) as long as the user name does not contain the
-   password. fmt/logrus rendering itself is not modelled; the rendered log of the real client is scanned on every run. *)
+   C11_quiet_levels: at every log level up to Debug (0..5, all of logrus' named levels below Trace), for every environment and
+   every sequence of calls whose own requests do not show the password, no record reveals it and the level is restored -
+   with NO assumption about encryption or about the bytes on the wire (C11_no_dumps_at_quiet_levels: no byte dump is
+   written at those levels at all). The only premise left is that the peer does not send the password back in an unmasked
+   field of a reply (peer_no_echo_tree); the premise about the authentication request is proved (C11_auth_tree_masked).
+   C11_no_secret: the same for every level L below 99 (Trace and the unnamed levels 7..98 included) - there the byte dumps of
+   ciphertext and of received plaintext are logged, and two premises that cannot be theorems are needed and visible in the
+   statement (guarded by Trace <= L):
+     cipher_hides   the ciphertext does not contain the password      (an assumption about encryption)
+     peer_no_echo   what the peer sends back does not contain it      (an assumption about the peer)
+   fmt/logrus rendering itself is not modelled; the rendered log of the real client is scanned on every run. *)
 From Coq Require Import List NArith ZArith Bool.
 Import ListNotations.
 Require Import Codec Vocab Client ClientLog Session C11Proofs.
@@ -28,4 +33,22 @@ Proof. exact C11Proofs.C11_mask_depth. Qed.
 Theorem C11_auth_tree_masked : forall user pw, ~ sublist pw user -> ~ reveals_tree pw (c_auth_req user pw).
 Proof. exact C11Proofs.C11_auth_tree_masked. Qed.
 
-Print Assumptions C11_no_secret. Print Assumptions C11_mask_depth. Print Assumptions C11_auth_tree_masked.
+(* levels 0..5: no assumption about ciphertext or received bytes; rdump is ANY notion of a revealing dump *)
+Theorem C11_quiet_levels : forall msg encode decode_step enc dec iv0 valid_req auth_req auth_ok conn_to send_to recv_to rbuf E (m : envsm E)
+    (rdump : list N -> Prop) (rtree : list msg -> Prop),
+  ~ rtree auth_req -> (forall buf pt ms b, decode_step buf pt = (Some (Some ms), b) -> ~ rtree ms) ->
+  forall calls e l, l <= 5 ->
+  Forall (fun c => match c with CSend _ _ ms => ~ rtree ms | CDisconnect _ => True end) calls ->
+  let w := snd (run msg encode decode_step enc dec iv0 valid_req auth_req auth_ok conn_to send_to recv_to rbuf E m
+                  (init_state iv0) (init_world msg E e l) calls) in
+  clean msg rdump rtree (out msg E w) /\ level msg E w = l.
+Proof. exact C11Proofs.C11_quiet_levels. Qed.
+
+Theorem C11_no_dumps_at_quiet_levels : forall msg encode decode_step enc dec iv0 valid_req auth_req auth_ok conn_to send_to recv_to rbuf E (m : envsm E) calls e l,
+  l <= 5 ->
+  let w := snd (run msg encode decode_step enc dec iv0 valid_req auth_req auth_ok conn_to send_to recv_to rbuf E m
+                  (init_state iv0) (init_world msg E e l) calls) in
+  forall lv b, ~ In (EvLog msg lv (LDump msg b)) (out msg E w).
+Proof. exact C11Proofs.C11_no_dumps_at_quiet_levels. Qed.
+
+Print Assumptions C11_no_secret. Print Assumptions C11_quiet_levels. Print Assumptions C11_no_dumps_at_quiet_levels. Print Assumptions C11_mask_depth. Print Assumptions C11_auth_tree_masked.
